@@ -262,16 +262,75 @@ func c15Gen(seed uint64, tier string) *Plan {
 			b.add(Action{At: re + d, Kind: "get_groups", Query: "muted=true"})
 		}
 	}
+	sib := false
+	if rs := rng.Fork("sibling"); len(p.Holds) == 0 && rs.Bool(0.3) {
+		// A sibling route with the same matcher chain (hence the same group keys), its
+		// own receiver, no time intervals and a short group_interval. Alert U ends just
+		// after a flush of the gated route's group: the sibling's group notices within
+		// seconds, empties, is destroyed and collected by the maintenance sweep while
+		// the gated route's group (same group key, other route) still exists with the
+		// marker of its last flush. The API must keep reporting that marker, and the
+		// sibling must never be reported as muted.
+		sib = true
+		sr := &Route{Receiver: "r1", Matchers: child.Matchers, Continue: true, GroupWait: time.Second, GroupWaitSet: true,
+			GroupInterval: Pick(rs, []Dur{5 * time.Second, 7 * time.Second, 11 * time.Second}), RepeatInterval: time.Hour}
+		if rs.Bool(0.5) {
+			cfg.Route.Routes = []*Route{sr, child}
+		} else {
+			child.Continue = true
+			sr.Continue = false
+			cfg.Route.Routes = []*Route{child, sr}
+		}
+		cfg.Receivers = append(cfg.Receivers, Receiver{Name: "r1", Webhooks: []Webhook{{SendResolved: rs.Bool(0.5)}}})
+		k := Dur(rs.Range(1, 3))
+		e := (time.Second + k*gi + rs.Dur(300*time.Millisecond, 3*time.Second)).Truncate(time.Millisecond)
+		cU := b.add(Action{At: rs.Dur(20*time.Second, 90*time.Second).Truncate(time.Millisecond), Kind: "post", Alerts: []PAlert{{Labels: map[string]string{"alertname": "U", "job": "j"}, EndOff: &e}}, Str: "flap"})
+		// the gated group's flush that finds U resolved; probes between the sweeps that
+		// follow the sibling group's destruction and that flush
+		tf := cU + time.Second + (k+1)*gi
+		for at := cU + e + 2*time.Second; at < tf-300*time.Millisecond; at += 4*time.Second + 500*time.Millisecond {
+			b.add(Action{At: at, Kind: "get_groups", Query: "muted=true"})
+		}
+		if rs.Bool(0.5) {
+			// ... and U fires again before that flush: the gated group lives on
+			// (resolved alerts are not listed by the API, so only a re-fired U shows the
+			// gated group's marker between the sweep and the next flush); preferably
+			// after the sweep that collects the sibling's group
+			lo, hi := cU+e+sr.GroupInterval+31*time.Second, tf-400*time.Millisecond
+			at := tf - rs.Dur(400*time.Millisecond, 3*time.Second)
+			if lo < hi {
+				at = rs.Dur(lo, hi)
+			}
+			re := b.add(Action{At: at.Truncate(time.Millisecond), Kind: "post", Alerts: []PAlert{{Labels: map[string]string{"alertname": "U", "job": "j"}, EndOff: &end}}, Str: "refire"})
+			for d := 150 * time.Millisecond; re+d < tf-150*time.Millisecond; d += 1700 * time.Millisecond {
+				b.add(Action{At: re + d, Kind: "get_groups", Query: "muted=true"})
+			}
+			for _, d := range []Dur{gi + 2*time.Second, 2*gi + 3*time.Second, 3*gi + 35*time.Second} {
+				b.add(Action{At: re + d, Kind: "get_groups", Query: "muted=true"})
+			}
+		}
+	}
 	p.SortActions()
-	p.Params = map[string]any{"zone": zone, "focus": f.UTC().Format(time.RFC3339), "gi": int64(gi)}
+	p.Params = map[string]any{"zone": zone, "focus": f.UTC().Format(time.RFC3339), "gi": int64(gi), "sibling": sib}
 	return p
+}
+
+// c15Gated returns the route that carries the run's time intervals.
+func c15Gated(m *Model) *MRoute {
+	for _, c := range m.Root.Children {
+		if len(c.Mute)+len(c.Active) > 0 {
+			return c
+		}
+	}
+	return m.Root.Children[0]
 }
 
 func c15Check(p *Plan, r *RunResult) *Verdict {
 	v := &Verdict{}
 	m := BuildModel(p, r.H, 0)
-	route := m.Root.Children[0]
+	route := c15Gated(m)
 	gi := route.GroupInterval
+	sibling, _ := p.Params["sibling"].(bool)
 	// the alert was accepted at postT; its group flushes at postT+group_wait+k*gi
 	var postT Dur = -1
 	var postsU []Dur // acceptance times of alert U (first submission, re-fire)
@@ -289,8 +348,21 @@ func c15Check(p *Plan, r *RunResult) *Verdict {
 	}
 	arrived := map[Dur]*Notif{}
 	for _, n := range r.H.Notifs {
-		if n.GroupLabels["alertname"] == "T" {
+		if n.GroupLabels["alertname"] == "T" && n.Receiver == "r0" {
 			arrived[n.T] = n
+		}
+	}
+	if sibling {
+		// the sibling route has no time intervals: its first flush is always notified
+		v.Ob("ungated-sibling-notified")
+		ok := false
+		for _, n := range r.H.Notifs {
+			if n.Receiver == "r1" && n.GroupLabels["alertname"] == "T" && n.T == postT+time.Second {
+				ok = true
+			}
+		}
+		if !ok && postT+time.Second < p.Horizon-time.Second {
+			v.Fail("C15", "C15/ungated-sibling-not-notified", postT+time.Second, "the sibling route (same matchers, no time intervals, receiver r1) did not notify its first flush at %v", postT+time.Second)
 		}
 	}
 	names := func(t Dur) (bool, []string) { return m.TimeMuted(route, t) }
@@ -343,6 +415,9 @@ func c15Check(p *Plan, r *RunResult) *Verdict {
 			}
 		}
 		var groups []struct {
+			Receiver struct {
+				Name string `json:"name"`
+			} `json:"receiver"`
 			Alerts []struct {
 				Labels map[string]string `json:"labels"`
 				Status struct {
@@ -355,6 +430,16 @@ func c15Check(p *Plan, r *RunResult) *Verdict {
 		}
 		found := false
 		for _, g := range groups {
+			if g.Receiver.Name == "r1" {
+				// the sibling route is never time-muted
+				for _, a := range g.Alerts {
+					v.Ob("api-ungated-sibling-not-muted")
+					if len(a.Status.MutedBy) > 0 {
+						v.Fail("C15", "C15/api-mutedBy-on-ungated-route", rec.T, "GET /alerts/groups at %v reports mutedBy %v for a group of the sibling route, which has no time intervals", rec.T, a.Status.MutedBy)
+					}
+				}
+				continue
+			}
 			for _, a := range g.Alerts {
 				lastX := last
 				if a.Labels["alertname"] == "U" {
@@ -399,7 +484,7 @@ func tiText(c *Config) string {
 func init() {
 	Register(&Prop{
 		ID: "C15", Level: "exploration", Gen: c15Gen, Check: c15Check,
-		Rule:        "seeded run: 1-3 named time intervals with 1-2 entries each, generated around a focus instant (a daylight-saving transition of one of 25 IANA zones, a month end incl. 28/29 February, a year end, a midnight, or a random minute between 2001 and 2090): time ranges ending/starting minutes to hours around it (incl. 00:00 and 24:00 ends and one-minute ranges), weekday ranges, days of month (positive, negative, clamped, mixed), months, years, location set or defaulted; a child route uses them as mute and/or active intervals; one alert fires for the whole window of 6-30 h (thorough 24-72 h) that contains the focus; the group flushes every 47/61/73/127 s (phases sweep through the minutes) with repeat_interval 1 s; 6-20 GET /alerts/groups?muted=true probes. Every flush instant is judged by the reference calendar. Non-trivial: at least one flush was judged; distinct by abstract trace (the muted/notified pattern is part of it).",
+		Rule:        "seeded run: 1-3 named time intervals with 1-2 entries each, generated around a focus instant (a daylight-saving transition of one of 25 IANA zones, a month end incl. 28/29 February, a year end, a midnight, or a random minute between 2001 and 2090): time ranges ending/starting minutes to hours around it (incl. 00:00 and 24:00 ends and one-minute ranges), weekday ranges, days of month (positive, negative, clamped, mixed), months, years, location set or defaulted; a child route uses them as mute and/or active intervals; one alert fires for the whole window of 6-30 h (thorough 24-72 h) that contains the focus; the group flushes every 47/61/73/127 s (phases sweep through the minutes) with repeat_interval 1 s; 6-20 GET /alerts/groups?muted=true probes; a quarter of the runs add a second group that is destroyed and re-created while the maintenance sweep is suspended; 30% of the others add a sibling route with the same matcher chain (same group keys), its own receiver, no intervals and a short group_interval, whose group for a second alert is destroyed and collected while the gated route's group of the same key lives on, with the alert firing again before the gated group's next flush and probes in between. Every flush instant is judged by the reference calendar; mutedBy must equal the muting names of the gated group's last flush and be empty for the sibling; the sibling's first flush must be notified. Non-trivial: at least one flush was judged; distinct by abstract trace (the muted/notified pattern is part of it).",
 		Real:        []string{"config loader (time_intervals parsing and validation)", "timeinterval (ContainsTime, Intervener)", "notify TimeActiveStage/TimeMuteStage + group marker", "dispatch timers", "api/v2 groups (mutedBy)", "webhook notifier"},
 		Stub:        []string{"clock (synctest; the run is placed at the chosen calendar instant)", "receiver endpoint"},
 		Assumptions: []string{"only the instants the simulated clock visits (flush ticks) are judged; the sweep over every instant and zone is a pure-function enumeration outside this technique", "the zone database of the sandbox is used by both the code under test and the reference"},
